@@ -1,5 +1,182 @@
 import PkVerif.Drv.Common
-/-! `pkmodel-c12`: stub (property not built yet). -/
+import PkVerif.Model.Replica
+/-!
+`pkmodel-c12`: the replica model behind a line protocol.
+
+    stores <n>                                 n ≤ 8 empty sub-stores (memory stores behind fault wrappers)
+    put <i> <key> <content>                    sub-store i receives the blob directly
+    cfg <min|-> <w,…|-> <r,…|->               blobserver.CreateStorage("replica", {backends, readBackends, minWritesForSuccess})
+    down <i> <0|1>                             reads/removes on sub-store i fail
+    recv <key> <content> <pos:kind,…> <run|cancel>
+                                               ReceiveBlob with the results arriving in the given order;
+                                               kind ∈ ok | ws (stores, reports size+1) | w0 (does not store,
+                                               reports size+1) | err (does not store) | es (stores, then errors);
+                                               `cancel`: the caller cancels ctx when ReceiveBlob returns
+    fetch <key> | stat <key,…|-> <order|-> | enum <after|-> <limit> | remove <key,…|-> | dump
+-/
 namespace Pk.Drv.C12
-def machine : Machine := { σ := Unit, init := (), step := fun s _ => (s, "bad-op") }
+open Pk Pk.MergedEnum Pk.Replica
+
+abbrev St := World
+
+def init : St := ⟨[], none⟩
+
+/-- strict decimal: 1..9 digits, nothing else -/
+def natArg (w : String) : Option Nat :=
+  if w.length ≥ 1 && w.length ≤ 9 && w.all Char.isDigit then w.toNat? else none
+
+def intArg (w : String) : Option Int :=
+  if w.startsWith "-" then (natArg (w.drop 1).toString).map (fun n => -(n : Int)) else (natArg w).map (fun n => (n : Int))
+
+def splitList (w : String) : List String := if w == "-" then [] else w.splitOn ","
+
+def natList (w : String) : Option (List Nat) := (splitList w).mapM natArg
+
+def nodup : List Nat → Bool
+  | [] => true
+  | a :: t => !t.contains a && nodup t
+
+def keyArg (w : String) : Option Bytes :=
+  match hexArg w with
+  | some b => if b.length = 28 then some b else none
+  | none => none
+
+def keyList (w : String) : Option (List Bytes) := (splitList w).mapM keyArg
+
+def showNats (l : List Nat) : String := if l.isEmpty then "-" else ",".intercalate (l.map toString)
+
+def showSRs (l : List SR) : String :=
+  if l.isEmpty then "-" else ",".intercalate (l.map (fun e => s!"{toHexString e.1}:{e.2}"))
+
+def parseKind (size : Nat) (pos : Nat) (k : String) : Option Res :=
+  match k with
+  | "ok" => some ⟨pos, true, .ok size⟩
+  | "ws" => some ⟨pos, true, .ok (size + 1)⟩
+  | "w0" => some ⟨pos, false, .ok (size + 1)⟩
+  | "err" => some ⟨pos, false, .err⟩
+  | "es" => some ⟨pos, true, .err⟩
+  | _ => none
+
+def parseArrival (size : Nat) (w : String) : Option Res :=
+  match w.splitOn ":" with
+  | [p, k] => match natArg p with
+    | some pos => parseKind size pos k
+    | none => none
+  | _ => none
+
+/-- the arrival order must name every write position exactly once -/
+def isPermOfRange (ps : List Nat) (n : Nat) : Bool :=
+  ps.length == n && nodup ps && ps.all (· < n)
+
+/-- insertion sort of numbers (canonical output of id sets) -/
+def sortNats (l : List Nat) : List Nat :=
+  l.foldr (fun x acc => (acc.filter (· < x)) ++ x :: (acc.filter (fun y => !(y < x)))) []
+
+def dedupNats (l : List Nat) : List Nat := l.foldr (fun x acc => if acc.contains x then acc else x :: acc) []
+
+def readsOf (w : World) (c : Cfg) : List Sub := c.reads.map (fun i => w.subs.getD i ⟨[], false⟩)
+
+def showFetchErr : FetchErr → String
+  | .notExist => "notexist"
+  | .down => "down"
+
+def sortSRs (l : List SR) : List SR := l.foldr Store.insert []
+
+def step (w : St) (ws : List String) : St × String :=
+  match ws with
+  | ["stores", n] =>
+    (match natArg n with
+     | some n => if n ≤ 8 then (⟨List.replicate n ⟨[], false⟩, none⟩, "ok") else (w, "bad-op")
+     | none => (w, "bad-op"))
+  | ["put", i, k, c] =>
+    (match natArg i, keyArg k, hexArg c with
+     | some i, some k, some c =>
+       if i < w.subs.length then ({ w with subs := storeAt w.subs [i] (k, c.length) }, "ok") else (w, "bad-op")
+     | _, _, _ => (w, "bad-op"))
+  | ["cfg", m, wl, rl] =>
+    (match (if m == "-" then some none else (intArg m).map some), natList wl, natList rl with
+     | some m, some wl, some rl =>
+       if nodup wl && nodup rl then
+         match newFromConfig w.subs.length wl rl m with
+         | some c => ({ w with cfg := some c }, s!"ok min={c.min} nw={c.writes.length} nr={c.reads.length}")
+         | none => ({ w with cfg := none }, "err")
+       else (w, "bad-op")
+     | _, _, _ => (w, "bad-op"))
+  | ["down", i, b] =>
+    (match natArg i, (if b == "0" then some false else if b == "1" then some true else none) with
+     | some i, some b =>
+       if i < w.subs.length then
+         ({ w with subs := w.subs.mapIdx (fun j s => if j = i then { s with down := b } else s) }, "ok")
+       else (w, "bad-op")
+     | _, _ => (w, "bad-op"))
+  | ["recv", k, c, arr, late] =>
+    (match keyArg k, hexArg c, (if late == "run" then some true else if late == "cancel" then some false else none) with
+     | some k, some c, some lateRun =>
+       match w.cfg with
+       | none => (w, "nocfg")
+       | some cfg =>
+         let size := c.length
+         match (splitList arr).mapM (parseArrival size) with
+         | none => (w, "bad-op")
+         | some arrivals =>
+           if !isPermOfRange (arrivals.map (·.idx)) cfg.writes.length then (w, "bad-op") else
+           let out := receiveBlob cfg.min size arrivals
+           let atReturn := storeAt w.subs (idsOf cfg.writes (holdersAtReturn cfg.min size arrivals)) (k, size)
+           let held := sortNats (dedupNats (cfg.writes.filter (fun i => ((atReturn.getD i ⟨[], false⟩).store.has k))))
+           let final := storeAt w.subs (idsOf cfg.writes (completed cfg.min size arrivals lateRun)) (k, size)
+           let o := match out with
+             | .ack _ _ => "ack"
+             | .fail (.replica idx) => s!"err replica {idx}"
+             | .fail (.wrongSize got want) => s!"err wrongsize {got} {want}"
+             | .zero => "zero"
+           ({ w with subs := final }, s!"{o} held={showNats held}")
+     | _, _, _ => (w, "bad-op"))
+  | ["fetch", k] =>
+    (match keyArg k with
+     | some k =>
+       match w.cfg with
+       | none => (w, "nocfg")
+       | some cfg =>
+         (w, match fetch (readsOf w cfg) k with
+             | .ok sz tried => s!"ok {sz} tried={tried}"
+             | .err e tried => s!"err {showFetchErr e} tried={tried}"
+             | .nilNil => "nil")
+     | none => (w, "bad-op"))
+  | ["stat", ks, order] =>
+    (match keyList ks, natList order with
+     | some ks, some order =>
+       match w.cfg with
+       | none => (w, "nocfg")
+       | some cfg =>
+         if !(order.isEmpty || isPermOfRange order cfg.reads.length) then (w, "bad-op") else
+         let reads := readsOf w cfg
+         let (out, ok) := statBlobs reads ks (seqReports reads ks)
+         (w, s!"{showSRs (sortSRs out)} {if ok then "ok" else "err"}")
+     | _, _ => (w, "bad-op"))
+  | ["enum", after, limit] =>
+    (match (if after == "-" then some none else (keyArg after).map some), natArg limit with
+     | some after, some limit =>
+       match w.cfg with
+       | none => (w, "nocfg")
+       | some cfg =>
+         let reads := readsOf w cfg
+         if reads.any (·.down) then (w, "racy")
+         else (w, s!"{showSRs (enumerateBlobs reads after limit)} ok")
+     | _, _ => (w, "bad-op"))
+  | ["remove", ks] =>
+    (match keyList ks with
+     | some ks =>
+       match w.cfg with
+       | none => (w, "nocfg")
+       | some cfg =>
+         let (subs, ok) := removeBlobs w.subs cfg.writes ks
+         ({ w with subs := subs }, if ok then "ok" else "err")
+     | none => (w, "bad-op"))
+  | ["dump"] =>
+    (w, if w.subs.isEmpty then "-" else
+      " ".intercalate (w.subs.mapIdx (fun i s => s!"{i}=[{showSRs s.store}]{if s.down then "!" else ""}")))
+  | _ => (w, "bad-op")
+
+def machine : Machine := { σ := St, init := init, step := step }
+
 end Pk.Drv.C12
